@@ -12,7 +12,7 @@ import (
 func init() { register("C04", "exploration", runC04) }
 
 var (
-	c04Ops    = []string{"media", "multipart", "resumable", "patch", "delete", "compose"}
+	c04Ops    = []string{"media", "multipart", "resumable", "patch", "delete", "compose", "patchfull"}
 	c04States = []string{"absent", "fresh", "patched", "recreated"}
 )
 
@@ -21,13 +21,14 @@ const c04Tuples = 5 * 4 * 4 * 4 // ifGenerationMatch {unset,=cur,!=cur,0,junk} x
 // C04: preconditions gate mutations exactly. Complete enumeration of the condition-tuple space in both tiers, random
 // histories on top; oracle = truth table of the statement + "a failed request changed nothing" whole-bucket diff.
 func runC04(run *common.Run) {
-	run.Rule = fmt.Sprintf("sub-space 'enum' (enumerated COMPLETELY in both tiers, exhaustive=true refers to it): %d condition tuples (ifGenerationMatch in {unset,=cur,!=cur,0,junk} x ifGenerationNotMatch, ifMetagenerationMatch, ifMetagenerationNotMatch in {unset,=cur,!=cur,junk}) x object state {absent, fresh (metageneration 1), patched (metageneration 3), deleted-and-recreated (!=cur = the deleted generation)} x operation {media, multipart, resumable (conditions at initiation), patch, delete, compose destination} x store {mem,file} = %d cases; sub-space 'src' (complete): compose with 1-3 sources, per-source ifGenerationMatch in {unset,=cur,!=cur} at every position x destination {absent,fresh} x store. Each case = fresh bucket with two neighbour objects, set-up of the target state, baseline dump, the one request, dump; expected status from the truth table, after any non-2xx the dump must equal the baseline. 'late' (complete): resumable sessions initiated with one condition, the target overwritten / patched / deleted / created while the session is open, then completed: the condition is judged against the object at completion; 'hist': random histories whose conditions refer to generations learned earlier. Non-trivial = the request carried at least one condition (enum/src) resp. the history saw both a passing and a failing conditioned request; distinct by case index.", c04Tuples, c04Tuples*len(c04States)*len(c04Ops)*2)
+	run.Rule = fmt.Sprintf("sub-space 'enum' (enumerated COMPLETELY in both tiers, exhaustive=true refers to it): %d condition tuples (ifGenerationMatch in {unset,=cur,!=cur,0,junk} x ifGenerationNotMatch, ifMetagenerationMatch, ifMetagenerationNotMatch in {unset,=cur,!=cur,junk}) x object state {absent, fresh (metageneration 1), patched (metageneration 3), deleted-and-recreated (!=cur = the deleted generation)} x operation {media, multipart, resumable (conditions at initiation), patch, delete, compose destination, patch whose body is a full object resource as an EARLIER metadata GET returned it (stale generation / metageneration / md5Hash / size for the patched and recreated states) with one user field changed} x store {mem,file} = %d cases; sub-space 'src' (complete): compose with 1-3 sources, per-source ifGenerationMatch in {unset,=cur,!=cur} at every position x destination {absent,fresh} x store. Each case = fresh bucket with two neighbour objects, set-up of the target state, baseline dump, the one request, dump; expected status from the truth table, after any non-2xx the dump must equal the baseline. 'late' (complete): resumable sessions initiated with one condition, the target overwritten / patched / deleted / created while the session is open, then completed: the condition is judged against the object at completion; 'hist': random histories whose conditions refer to generations learned earlier. Non-trivial = the request carried at least one condition (enum/src) resp. the history saw both a passing and a failing conditioned request; distinct by case index.", c04Tuples, c04Tuples*len(c04States)*len(c04Ops)*2)
 	run.Assumptions = []string{
 		"truth table taken from the statement: junk => 400; absent object passes only {} and {ifGenerationMatch=0}; 412 for match-type, 304 for not-match-type failures, either when both kinds fail; on an absent object 412 or 304 (and 404 for patch/delete)",
 		"zero values for the three parameters other than ifGenerationMatch are outside the stated space and never sent",
 		"for an absent object '=cur' / '!=cur' are a neighbour's generation (+1) and metageneration 1 / 2",
 		"resumable: an unparsable condition may be rejected at initiation or at completion",
 		"a resource without a size field is read as size 0",
+		"a PATCH body may be a full object resource from an earlier GET: its output-only fields (generation, metageneration, size, md5Hash, name, bucket, links, timestamps, kind) must not influence the verdict or the object",
 	}
 	j := common.NewJournal("C04")
 	W := workers()
@@ -158,14 +159,17 @@ func c04Setup(e *exec, b, state string, r *common.Rand) (oldGen int64, msg strin
 	switch state {
 	case "fresh":
 		msg = mk("fresh target")
+		e.snapshot(b, "t")
 	case "patched":
 		if msg = mk("patched target"); msg == "" {
+			e.snapshot(b, "t") // stale later: metageneration 1
 			if msg = e.patch(b, "t", map[string]any{"cacheControl": "no-cache"}, model.Conds{}); msg == "" {
 				msg = e.patch(b, "t", map[string]any{"metadata": map[string]any{"p": "2"}}, model.Conds{})
 			}
 		}
 	case "recreated":
 		if msg = mk("first incarnation"); msg == "" {
+			e.snapshot(b, "t") // stale later: generation, md5Hash and size of the deleted incarnation
 			oldGen = e.m.Get(b, "t").Gen
 			if msg = e.del(b, "t", model.Conds{}); msg == "" {
 				msg = mk("second incarnation")
@@ -246,6 +250,13 @@ func c04Enum(run *common.Run, srv *drive.Server, idx int) {
 		msg = e.upload(u, r)
 	case "patch":
 		msg = e.patch(b, "t", map[string]any{"contentLanguage": "de"}, c)
+	case "patchfull":
+		body := map[string]any{"kind": "storage#object", "name": "t", "bucket": b, "generation": "1700000000000000123", "metageneration": "5", "size": "7", "md5Hash": "1B2M2Y8AsgTpgAmY7PhCfg=="}
+		if sn := e.snaps[b+"\x00t"]; len(sn) > 0 {
+			body = cloneResource(sn[0]) // the oldest resource a GET ever returned for this name
+		}
+		body["contentLanguage"] = "de"
+		msg = e.patch(b, "t", body, c)
 	case "delete":
 		msg = e.del(b, "t", c)
 	case "compose":
@@ -401,7 +412,7 @@ func c04History(run *common.Run, idx int) {
 		run.Violation("hist", idx, what, map[string]any{"store": store, "steps": tailSteps(e.steps, 40), "steps_total": len(e.steps)})
 	}
 	o := &progOpts{Buckets: []string{"vb1"}, Names: []string{"t", "u", "dir/v", "w.txt"}, FileRules: store == "file", CondPct: 75, JunkPct: 6, MD5Pct: 10, NoGzip: true,
-		W: map[string]int{"upload": 20, "overwrite": 25, "delete": 14, "delete_absent": 5, "patch": 18, "patch_absent": 4, "compose": 10, "noop": 1}}
+		W: map[string]int{"upload": 20, "overwrite": 25, "delete": 14, "delete_absent": 5, "patch": 12, "patch_full": 12, "patch_absent": 4, "compose": 10, "noop": 1}}
 	if msg := e.createBucket("vb1"); msg != "" {
 		fail(msg)
 		return
